@@ -11,6 +11,8 @@ pub mod c08;
 pub mod c09;
 pub mod c10;
 pub mod c11;
+pub mod c12;
+pub mod c13;
 pub mod c14;
 pub mod c15;
 pub mod c16;
@@ -28,6 +30,8 @@ pub fn run(id: &str, eng: &Engine) {
         "C09" => c09::run(eng),
         "C10" => c10::run(eng),
         "C11" => c11::run(eng),
+        "C12" => c12::run(eng),
+        "C13" => c13::run(eng),
         "C14" => c14::run(eng),
         "C15" => c15::run(eng),
         "C16" => c16::run(eng),
@@ -51,6 +55,8 @@ pub fn replay(id: &str, eng: &Engine, stage: &str, case: &Value) -> CaseResult {
         "C09" => c09::replay(eng, stage, case),
         "C10" => c10::replay(eng, stage, case),
         "C11" => c11::replay(eng, stage, case),
+        "C12" => c12::replay(eng, stage, case),
+        "C13" => c13::replay(eng, stage, case),
         "C14" => c14::replay(eng, stage, case),
         "C15" => c15::replay(eng, stage, case),
         "C16" => c16::replay(eng, stage, case),
